@@ -349,9 +349,9 @@ def compile_errors_propagate(F, rep, core):
     rep.floor("C06-R14", "compile_const call sites whose result is propagated or unwrapped", n, 1000)
 
 
-def discriminant_tables(F, rep, core):
-    """C06-R15: `from_uN(n) => Some(E::V)` tables invert the enum's discriminants (the writers emit `E::V as uN`)"""
-    rep.rule("C06-R15", "tag decoders invert the discriminants: for every repr(uN) enum with a from_u8/from_u16 decoder, `n => E::V` holds exactly when V's discriminant is n "
+def discriminant_tables(F, rep, core, rid="C06-R15"):
+    """C06-R15 (also run as C07-R10 by rules/c07.py): `from_uN(n) => Some(E::V)` tables invert the enum's discriminants (the writers emit `E::V as uN`)"""
+    rep.rule(rid, "tag decoders invert the discriminants: for every repr(uN) enum with a from_u8/from_u16 decoder, `n => E::V` holds exactly when V's discriminant is n "
                         "(the writers emit `V as uN`; a swapped pair decodes one type as the other with no size or alignment error)")
     from lib.minieval import ev, NoEval
     enums = {}
@@ -395,10 +395,21 @@ def discriminant_tables(F, rep, core):
                     continue
                 n += 1
                 want = enums[en].get(vs[0])
-                rep.check(want == tag, "C06-R15", "%s::%s:%s" % (en, it["name"], vs[0]),
+                rep.check(want == tag, rid, "%s::%s:%s" % (en, it["name"], vs[0]),
                           "%s::%s maps %d to %s::%s, whose discriminant (what the writer emits) is %s: a value written with one tag is decoded as another type" % (en, it["name"], tag, en, vs[0], want),
                           "%s::%s (mech_core.lib)" % (en, it["name"]), sample={"enum": en, "variant": vs[0], "tag": tag})
-    rep.floor("C06-R15", "tag decoder arms compared with discriminants", n, 50)
+        # completeness: a variant without a reader arm cannot be decoded at all (its tag falls into the catch-all)
+        seen_v = set()
+        for m in find(it["body"], "match"):
+            for a in m[2]:
+                for x in walk(a[2]):
+                    if x[0] == "path" and re.match(r"^%s::(\w+)$" % en, x[1]):
+                        seen_v.add(x[1].split("::")[-1])
+        for v in sorted(set(enums[en]) - seen_v):
+            rep.check(False, rid, "%s::%s:%s:no-reader-arm" % (en, it["name"], v),
+                      "%s::%s has no arm producing %s::%s (discriminant %s): a value the writers tag with it is rejected or decoded as something else" % (en, it["name"], en, v, enums[en][v]),
+                      "%s::%s (mech_core.lib)" % (en, it["name"]))
+    rep.floor(rid, "tag decoder arms compared with discriminants", n, 50)
 
 
 def panicking_kind_ladders(F, rep, core):
